@@ -1540,7 +1540,9 @@ impl SourceTextModule {
     #[allow(clippy::mutable_key_type)]
     fn gather_available_ancestors(&self, exec_list: &mut FxHashSet<Module>) {
         // 1. For each Cyclic Module Record m of module.[[AsyncParentModules]], do
-        let parents = std::mem::take(&mut *self.async_parent_modules.borrow_mut());
+        // NOTE: the list is only read here: `AsyncModuleExecutionRejected` still needs it if one of
+        // the gathered ancestors throws when it runs.
+        let parents = self.async_parent_modules.borrow().clone();
         for m in parents {
             let ModuleKind::SourceText(m_src) = m.kind() else {
                 continue;
